@@ -261,8 +261,11 @@ def api_object(ctx, RP, x, cid, tags, sparse, missing, **kw):
     hx, htag = as_held(ctx.rng("held", cid, sparse, missing), np.array(x),
                        allow_list=False)
     ctx.count("input_held_as:" + htag)
+    from pvm.gen.held import as_flag
+    rf = ctx.rng("flags", cid, sparse, missing)
     ok, obj = ctx.call(RP, hx, metric=kw.pop("metric", "supremum"),
-                       sparse_rqa=sparse, missing_values=missing,
+                       sparse_rqa=as_flag(rf, sparse),
+                       missing_values=as_flag(rf, missing),
                        silence_level=3, **kw)
     ctx.evals()
     if not ok:
